@@ -52,6 +52,10 @@ class E2E(Suite):
             # a quiet period longer than the upstream connection's idle timeout, then TCP queries again: the re-opened
             # connection must serve them (its watchdogs start afresh)
             out.append("e2e wait=22000 gap=126000 q=6:t:-:ok,4:t:-:d20 then=6:t:-:ok,4:t:-:ok,d4:t:-:d20,6:u:-:tc")
+        # a single query queued right behind datagrams that get no reply, with nothing else going on: it must be answered
+        # (no later traffic comes to wake the listener up); one per listener
+        for fam in FAMS:
+            out.append("e2e wait=9000 q=%s:j:%s:ok" % (fam, rng.choice(["-", "1232"])))
         while total < n:
             sz = sizes[i % len(sizes)]
             out.append(self.gen_one(rng, sz, silent=(i == 0 or tier != "quick")))
